@@ -399,9 +399,14 @@ fn gen_macro(ch: &mut Ch, _thorough: bool) -> Option<Case> {
     }
     // "expr-default": explicit default values (a string literal and a path, both needing the documented Into) arrive
     // as `expr` fragments
-    let frag = *ch.of(&["ident", "tt", "meta", "expr-default"]);
+    // "bound-fragments": an explicit bound whose predicates contain an `expr` fragment (array length) and a `ty`
+    // fragment (multi-bound trait object behind a reference)
+    let frag = *ch.of(&["ident", "tt", "meta", "expr-default", "bound-fragments"]);
     let entry = *ch.of(&Entry::BOTH);
     if frag == "expr-default" && !(list.contains(&"Default") && shape == 0) {
+        return None;
+    }
+    if frag == "bound-fragments" && (deref || ops) {
         return None;
     }
     let d = if list.contains(&"Default") { "#[default] " } else { "" };
@@ -419,6 +424,7 @@ fn program(c: &Case) -> String {
         let ex = if c.entry == Entry::Derive { "#[derive(Ex)] " } else { "" };
         let body = match c.desc.as_str() {
             "meta" => format!("macro_rules! mk {{ ($m:meta) => {{ {ex}#[$m] {} }} }}\nmk!(derive_ex({list}));\n", c.item),
+            "bound-fragments" => format!("pub trait L4 {{}}\nimpl L4 for [u8; 4] {{}}\nmacro_rules! mk {{ ($e:expr, $t:ty) => {{ {ex}#[derive_ex({list}, bound([u8; $e * 2]: L4, &'static $t: ::core::marker::Copy, ..))] {} }} }}\nmk!(1 + 1, dyn ::core::fmt::Debug + Send);\n", c.item),
             "expr-default" => format!("pub const S9: &str = \"s9\";\nmacro_rules! mk {{ ($v:expr, $w:expr) => {{ {ex}#[derive_ex({list})] {} }} }}\nmk!(\"abc\", S9);\n", c.item.replace("pub a: Fty", "#[default($v)] pub a: Wr").replace("pub b: Fty", "#[default($w)] pub b: Wr")),
             f => format!("macro_rules! mk {{ ($t:{f}) => {{ {ex}#[derive_ex({list})] {} }} }}\nmk!(Fty);\n", c.item.replace("Fty", "$t")),
         };
